@@ -496,12 +496,17 @@ def rdHeaderPart (fl : Flavor) : P (List Int) := fun s =>
   | .error e => .error e
   | .ok (a, r) => .ok (wordsOf fl fl.ibytes 7 a, r)
 
-/-- arithmetic on the declared counts that overflows before anything is checked against the file:
-    `ref_part_first(nnode, nproc, 1)` forms `nnode + nproc` and `nnode - 1` in `long` (ref_part_node), and
-    ref_part_bin_ugrid_cell forms `size_per * chunk` in `int` for `ref_malloc(sent_c2n, …)` -/
-def partCountHazard (np : Nat) (hdr : List Int) : Bool :=
+/-- `long` arithmetic on the declared counts that (may) overflow before anything is checked against the file:
+    `ref_part_first(nnode, nproc, 1)` forms `nnode + nproc` and `nnode - 1` (ref_part_node); the section offsets are sums
+    of `count * node_per * ibyte` — all below 2^63 when every count is below 2^55 in magnitude (conservative bound) -/
+def partHeaderHazard (np : Nat) (hdr : List Int) : Bool :=
   let nnode := hdr.getD 0 0
   decide (nnode + (np : Int) ≥ 2 ^ 63 ∨ nnode ≤ -(2 ^ 63 : Int)) ||
+  hdr.any fun c => decide (c ≥ 2 ^ 55 ∨ c ≤ -(2 ^ 55 : Int))
+
+/-- … or in `int`: ref_part_bin_ugrid_cell forms `size_per * chunk` for `ref_malloc(sent_c2n, …)` -/
+def partCountHazard (np : Nat) (hdr : List Int) : Bool :=
+  partHeaderHazard np hdr ||
   Kind.all.any fun k =>
     let ncell := hdr.getD k.hdrIndex 0
     decide (0 < ncell ∧ (k.sizePer : Int) * (UgridOffsets.part_chunk wrap32 ncell np) ≥ 2 ^ 31)
@@ -512,7 +517,7 @@ def partRead (fl : Flavor) (np : Nat) (chunkOverride : Option Nat) (bs : Bytes) 
   | .error e => .error e
   | .ok (hdr, s) =>
   let nnode := hdr.getD 0 0
-  if nnode + (np : Int) ≥ 2 ^ 63 ∨ nnode ≤ -(2 ^ 63 : Int) then .error .undefined else
+  if partHeaderHazard np hdr then .error .undefined else
   -- ref_part_node: `ref_part_first(nnode, np, part)` nodes per rank, every `fread` checked; a count ≤ 0 reads nothing
   match rdVerts fl nnode.toNat s with
   | .error e => .error e
